@@ -19,9 +19,14 @@ pub enum Op {
     Begin,
     Commit,
     Cancel,
+    /// commit / cancel of one transaction while another one stays open (transactions_max_num 2)
+    CommitOtherOpen,
+    CancelOtherOpen,
+    /// begin of a second transaction while one is open
+    BeginOtherOpen,
 }
 
-pub const OPS: [Op; 6] = [Op::New, Op::Configure, Op::ReadCard, Op::Begin, Op::Commit, Op::Cancel];
+pub const OPS: [Op; 9] = [Op::New, Op::Configure, Op::ReadCard, Op::Begin, Op::Commit, Op::Cancel, Op::CommitOtherOpen, Op::CancelOtherOpen, Op::BeginOtherOpen];
 
 /// Scenario skeleton for an operation: (calls, index of the call under test).  A further operation follows to observe reuse.
 pub fn skeleton(op: Op, cfg: &ClientCfg) -> (Scenario, usize) {
@@ -36,7 +41,13 @@ pub fn skeleton(op: Op, cfg: &ClientCfg) -> (Scenario, usize) {
         Op::Begin => (vec![Call::Begin("a".into()), Call::ReadCard], 2),
         Op::Commit => (vec![Call::Begin("a".into()), Call::Commit("a".into(), 1000), Call::ReadCard], 3),
         Op::Cancel => (vec![Call::Begin("a".into()), Call::Cancel("a".into()), Call::ReadCard], 3),
+        Op::CommitOtherOpen => (vec![Call::Begin("a".into()), Call::Begin("b".into()), Call::Commit("a".into(), 1000), Call::ReadCard], 4),
+        Op::CancelOtherOpen => (vec![Call::Begin("a".into()), Call::Begin("b".into()), Call::Cancel("a".into()), Call::ReadCard], 4),
+        Op::BeginOtherOpen => (vec![Call::Begin("a".into()), Call::Begin("b".into()), Call::ReadCard], 3),
     };
+    if matches!(op, Op::CommitOtherOpen | Op::CancelOtherOpen | Op::BeginOtherOpen) {
+        sc.cfg.max_tx = 2;
+    }
     sc.calls = calls;
     // a dangling pre-authorisation is reported during the clean-up of the call under test: one more exchange to hit
     if matches!(op, Op::Commit | Op::Cancel | Op::Configure) {
@@ -46,7 +57,7 @@ pub fn skeleton(op: Op, cfg: &ClientCfg) -> (Scenario, usize) {
     // a few intermediate packets so that "between two reply packets" exists everywhere
     match op {
         Op::ReadCard => sc.plan.push(idx, Cmd::ReadCard, ExPlan { pre: vec![Pre::Intermediate { status: 0x17, timeout: 0 }], ..ExPlan::default() }),
-        Op::Begin => sc.plan.push(idx, Cmd::Reservation, ExPlan { pre: vec![Pre::Intermediate { status: 0x0e, timeout: 0 }], ..ExPlan::default() }),
+        Op::Begin | Op::BeginOtherOpen => sc.plan.push(idx, Cmd::Reservation, ExPlan { pre: vec![Pre::Intermediate { status: 0x0e, timeout: 0 }], ..ExPlan::default() }),
         _ => {}
     }
     (sc, idx)
@@ -280,10 +291,10 @@ pub fn run(ctx: &Ctx, id: &str) -> i32 {
     let quick = ctx.quick();
     report.exhaustive = Some(true);
     if id == "C09" {
-        report.rule = "every public operation {new, configure, read_card, begin, commit, cancel} is first run fault-free to number its terminal->client packets (handshake, acks, intermediate packets, clean-up exchanges included); then re-run with one fault at every position x kind {close, a regular reply followed by an immediate close (the client notices while writing its acknowledgement), garbage, NACK, foreign control field, silence, wrong serial (reversed, a prefix of the configured one padded with NUL, blank, spaces, first character only, first / last character changed, halves swapped) / bare completion (system-info reply), a well-formed Abort where the reply set has none (registration reply), and each of 7 well-formed packets (abort, completion, intermediate status, status information, print line, set-time, acknowledgement) wherever it lies outside the exchange's reply set} and with refused connection attempts; all pairs of faults for the shorter operations and sampled pairs/triples otherwise; each followed by a further operation. Also: a terminal reporting the serial in the other letter case, and 1 ms..1 s delays between and inside packets (non-faults: the operation must succeed without reconnecting). Also the terminal closing the idle connection before the operation or before the follow-up operation (the next command write fails), alone and followed by a second fault. Oracle: connection checker R1-R6 (DESIGN D.4) over the per-connection event log; R6 = after the terminal closed a connection, the operations that follow make a new connection attempt. Non-trivial = every faulty run; single faults are a duplicate-free enumeration, multi-fault runs hashed.".into();
+        report.rule = "every public operation {new, configure, read_card, begin, commit, cancel, and begin / commit / cancel while another transaction is open} is first run fault-free to number its terminal->client packets (handshake, acks, intermediate packets, clean-up exchanges included); then re-run with one fault at every position x kind {close, a regular reply followed by an immediate close (the client notices while writing its acknowledgement), garbage, NACK, foreign control field, silence, wrong serial (reversed, a prefix of the configured one padded with NUL, blank, spaces, first character only, first / last character changed, halves swapped) / bare completion (system-info reply), a well-formed Abort where the reply set has none (registration reply), and each of 7 well-formed packets (abort, completion, intermediate status, status information, print line, set-time, acknowledgement) wherever it lies outside the exchange's reply set} and with refused connection attempts; all pairs of faults for the shorter operations and sampled pairs/triples otherwise; each followed by a further operation. Also: a terminal reporting the serial in the other letter case, and 1 ms..1 s delays between and inside packets (non-faults: the operation must succeed without reconnecting). Also the terminal closing the idle connection before the operation or before the follow-up operation (the next command write fails), alone and followed by a second fault. Oracle: connection checker R1-R6 (DESIGN D.4) over the per-connection event log; R6 = after the terminal closed a connection, the operations that follow make a new connection attempt. Non-trivial = every faulty run; single faults are a duplicate-free enumeration, multi-fault runs hashed.".into();
         report.assumptions = vec!["after injecting a fault the simulated terminal is passive on that connection, so every byte recorded there afterwards was written by the client".into(), "silence during the handshake is bounded by the fix of finding D6 (otherwise those runs end at the watchdog and are attributed to C10)".into()];
     } else {
-        report.rule = "every public operation x (a) a one-shot silence at every terminal->client packet position (fault-free numbering), (b) a persistent silence at every distinct (exchange kind, packet) point incl. the handshake, (c) a connect that never resolves / always never resolves / is always refused, (d) pairs: a one-shot silence followed by a second silence / close / garbage / connect stall on the retried attempt, and silence on a slow terminal, (f) a garbage / NACK / foreign / unexpected-but-well-formed packet (or a regular reply followed by a close) at every position after which the terminal stays silent and never closes its side, (g) the cached connection fails at once (idle close / close / NACK / garbage / reply-then-close) and every new connection is refused, stalls, or breaks at one point of its handshake (silence / close / garbage / NACK / wrong serial), (e) finite pauses of 1..61 s at every position and of 3..59 s inside the handshake of a re-connection for read_card_timeout in {0,5,15,30,56,57,58,200}; read_card_timeout 0..255 exhaustively with a terminal that stays silent for exactly its own read-card time-out and then answers 'abort 6C' 100 ms later (must be waited for: NoCardPresented); configuration extremes (password 0/999999, amount 0/10^12-1, transactions_max_num 0/usize::MAX, terminal id empty/non-numeric/8 digits, currency 0/9999). Time is tokio's paused clock. Oracle: every call returns before one virtual day and does not panic. Duplicate-free enumeration.".into();
+        report.rule = "every public operation x (a) a one-shot silence at every terminal->client packet position (fault-free numbering), (b) a persistent silence at every distinct (exchange kind, packet) point incl. the handshake, (c) a connect that never resolves / always never resolves / is always refused, (d) pairs: a one-shot silence followed by a second silence / close / garbage / connect stall on the retried attempt, and silence on a slow terminal, (f) a garbage / NACK / foreign / unexpected-but-well-formed packet (or a regular reply followed by a close) at every position after which the terminal stays silent and never closes its side, (h) unsolicited bytes on the idle connection just before the operation (the first byte(s) of a packet and then nothing more with the connection kept open; a complete intermediate status), (g) the cached connection fails at once (idle close / close / NACK / garbage / reply-then-close) and every new connection is refused, stalls, or breaks at one point of its handshake (silence / close / garbage / NACK / wrong serial), (e) finite pauses of 1..61 s at every position and of 3..59 s inside the handshake of a re-connection for read_card_timeout in {0,5,15,30,56,57,58,200}; read_card_timeout 0..255 exhaustively with a terminal that stays silent for exactly its own read-card time-out and then answers 'abort 6C' 100 ms later (must be waited for: NoCardPresented); configuration extremes (password 0/999999, amount 0/10^12-1, transactions_max_num 0/usize::MAX, terminal id empty/non-numeric/8 digits, currency 0/9999). Time is tokio's paused clock. Oracle: every call returns before one virtual day and does not panic. Duplicate-free enumeration.".into();
         report.assumptions = vec!["watchdog = tokio::time::timeout of one virtual day around every public call; it can only fire when the client is parked without a timer of its own or its own timers exceed a day".into(), "only a collapsed (too short) read-card timeout is judged; the effective timeout is recorded".into()];
     }
     let base_cfg = ClientCfg { max_tx: 1, currency: 826, password: 471199, pre_amount: 3100, serial: "17fd1E3c".into(), ..ClientCfg::default() };
@@ -630,6 +641,28 @@ pub fn run(ctx: &Ctx, id: &str) -> i32 {
                     sc.plan.faults.push(FaultSpec { call: idx, at: At::Point(pt.cmd, pt.reply_idx), kind });
                     run_and_judge(r, id, &sc, idx, &schema, &format!("{op:?}: {kind:?} at every {:?} reply {}, then silence with the connection open", pt.cmd, pt.reply_idx), true);
                     r.count("fault_then_silence_runs", 1);
+                }
+            }
+            // (h) the terminal says something unsolicited on the idle connection just before the operation (the beginning
+            //     of a packet and then nothing more; a complete packet) - alone, and with a silence on the re-connection
+            for (k, op) in OPS.iter().enumerate() {
+                if k % threads != shard % threads || *op == Op::New {
+                    continue;
+                }
+                for v in 0..4u8 {
+                    for at_call_offset in [0usize, 1] {
+                        let (mut sc, idx) = skeleton(*op, &base_cfg);
+                        sc.plan.faults.push(FaultSpec { call: idx + at_call_offset, at: At::Idle, kind: FaultKind::IdleBytes(v) });
+                        run_and_judge(r, id, &sc, idx, &schema, &format!("{op:?}: unsolicited bytes (variant {v}) on the idle connection before call {}", idx + at_call_offset), false);
+                        r.count("unsolicited_idle_bytes_runs", 1);
+                        for point in [(Cmd::Registration, 1usize), (Cmd::SystemInfo, 1)] {
+                            let (mut sc, idx) = skeleton(*op, &base_cfg);
+                            sc.plan.faults.push(FaultSpec { call: idx + at_call_offset, at: At::Idle, kind: FaultKind::IdleBytes(v) });
+                            sc.plan.faults.push(FaultSpec { call: idx + at_call_offset, at: At::PointOnce(point.0, point.1), kind: FaultKind::Silence });
+                            run_and_judge(r, id, &sc, idx, &schema, &format!("{op:?}: unsolicited bytes (variant {v}) before call {}, then silence at {:?} packet {} of the new handshake", idx + at_call_offset, point.0, point.1), false);
+                            r.count("unsolicited_idle_bytes_runs", 1);
+                        }
+                    }
                 }
             }
             // (g) the operation starts on the cached connection, which fails at once (closed while idle / closed, NACK or
